@@ -47,7 +47,8 @@ def do_run(sid, props):
     results = {}
     try:
         for p in props:
-            rc, out = sh(["./check", p], cwd=ROOT, env=dict(os.environ, VERIF_SEED=os.environ.get("VERIF_SEED", "1")))
+            rc, out = sh(["./check", p], cwd=ROOT, env=dict(os.environ, VERIF_SEED=os.environ.get("VERIF_SEED", "1"),
+                                                                  VERIF_EVIDENCE_DIR="/verif/.work/evidence-seeded"))
             lines = [l for l in out.split("\n") if l.startswith("VIOLATION") or l.startswith("  ") or "PASS" in l or "FAIL" in l]
             results[p] = {"exit": rc, "lines": lines[:8]}
             print(sid, p, "exit", rc); [print("    ", l[:260]) for l in lines[:6]]
